@@ -236,6 +236,20 @@ Theorem translated_encoders_use_partition_range : forall s, In s gen_encoders ->
 Proof. exact translated_encoders_ranges_lemma. Qed.
 Print Assumptions translated_encoders_use_partition_range.
 
+(* the genotype trio (encode_genotypes_partition as translated): cyvcf2 delivers, per sample, the allele numbers followed by
+   the phase flag; call_genotype is fed all columns but the last (through the 2-d integer sanitiser), call_genotype_phased the
+   last column (through the 1-d one), and call_genotype_mask is "stored allele < 0" -- missing (-1) and padding (-2) alike *)
+Theorem translated_genotype_split : forall (calls : list (list Z * Z)),
+  gen_gt_alleles (map (fun c => fst c ++ [snd c]) calls) = map fst calls /\
+  gen_gt_phase (map (fun c => fst c ++ [snd c]) calls) = map snd calls.
+Proof. exact translated_genotype_split_lemma. Qed.
+Print Assumptions translated_genotype_split.
+
+Theorem translated_genotype_mask : forall stored s k,
+  nth k (nth s (gen_gt_mask stored) []) false = (nth k (nth s stored []) 0 <? 0)%Z \/ (length (nth s stored []) <= k)%nat \/ (length stored <= s)%nat.
+Proof. exact translated_genotype_mask_lemma. Qed.
+Print Assumptions translated_genotype_mask.
+
 (* sensitivity of the check: a buffer created at 0, a second next_buffer_row, a missing flush, a write before
    the row is handed out are all refused *)
 Example skel_check_refuses :
